@@ -13,8 +13,8 @@ import (
 )
 
 const EOF = -1
-const whitespace1 = 1<<'\t' | 1<<' '
-const whitespace2 = 1<<'\t' | 1<<'\n' | 1<<'\r' | 1<<' '
+const whitespace1 = 1<<'\t' | 1<<'\v' | 1<<'\f' | 1<<' '
+const whitespace2 = 1<<'\t' | 1<<'\v' | 1<<'\f' | 1<<'\n' | 1<<'\r' | 1<<' '
 
 type Error struct {
 	Pos     ast.Position
